@@ -81,13 +81,18 @@ def battery(seed, tier, n):
         pts = [{v: rng.choice([0.5, 1.5, 2.0, 0.25, 3.0, 1.25, 0.1, 1 / 3, 2, -1.5, -0.5, 1, 1.0, 0.7]) for v in pnames} for _ in range(2)]
         if any(R.NORMAL.evaluate(t, p).oos for p in pts):
             continue
+        if rng.random() < 0.2 and S.size(t) <= 16:
+            # the property has no range restriction: at extreme (float) coordinates the OUTCOME - which exception
+            # is raised, or which huge number comes back - must not depend on the hash seed either.  Floats only:
+            # float arithmetic cannot run away the way int ** int can.
+            pts[1] = {v: rng.choice([1e150, 1e-150, 700.0, -700.0, 1e100, 1e-100, 300.0, 50.0, 1e-200, 2.0, 0.5]) for v in pnames}
         cases.append({"spec": S.to_json(t), "points": [S.point_to_json(p) for p in pts], "vars": rng.sample(vs, min(2, len(vs)))})
     return cases
 
 
 def run_shard(ctx):
     n = int(PLAN[ctx.tier]["cases"] * C.scale())
-    cases = battery(ctx.seed, ctx.tier, n)
+    cases = C.corpus_cases("C18") + battery(ctx.seed, ctx.tier, n)
     dg = hashlib.blake2b(json.dumps(cases, sort_keys=True).encode(), digest_size=8).hexdigest()
     prng = random.Random(f"perm/{ctx.shard}")
     records = []
